@@ -134,6 +134,14 @@ CHECKS = {
           "The interpreter and assembler (vf/ref/tinyrv0.py) are written from tinyrv0-isa.md and validated on the repo's directed tests' "
           "hand-written expectations; xcel CSRs are excluded; liveness beyond the cycle bound is inconclusive.",
           "DESIGN.md 3/C20"),
+  "C12": ("translation_validation",
+          "property-based testing (Hypothesis): differential execution of the emitted Yosys-flavoured Verilog by the E2 interpreter against the PyMTL simulation, driven and observed through the flattened leaf ports",
+          "Accepted designs must have exactly the flattened leaf ports of the PyMTL ports, parse, declare identifiers once, have one driver "
+          "per variable bit and agree with PyMTL on every output leaf (slice of the packed value) each cycle. A known structural flaw of the "
+          "flattening (struct-typed outputs/wires/child inputs) is tolerated by exact signature; a second phase with struct types restricted "
+          "to top-level inputs keeps searching behind it.",
+          "E2 trusted as in C03; flattened naming convention '__' per path segment/index.",
+          "DESIGN.md 3/C12"),
 }
 
 NOT_YET = {}
